@@ -10,6 +10,7 @@ import (
 	"go/types"
 	"golang.org/x/tools/go/ssa"
 	"strings"
+	"unicode"
 
 	"regexlint/internal/core"
 )
@@ -2651,7 +2652,9 @@ func RTentative(c *core.Ctx) {
 				}
 				// can the add reach the restore without passing the save again?
 				isRestore := func(nd ast.Node) bool { return nd.Pos() <= rs.Pos() && rs.End() <= nd.End() }
-				isSave := func(nd ast.Node) bool { return saveStmt != nil && nd.Pos() <= saveStmt.Pos() && saveStmt.End() <= nd.End() }
+				isSave := func(nd ast.Node) bool {
+					return saveStmt != nil && nd.Pos() <= saveStmt.Pos() && saveStmt.End() <= nd.End()
+				}
 				if _, reaches := g.ReachesWithout(ab, ai, isRestore, isSave); reaches {
 					bad = types.ExprString(ad.Fun) + " at " + p.Pos(ad.Pos())
 				}
@@ -2818,5 +2821,96 @@ func RUnionNeg(c *core.Ctx) {
 	}
 	if n == 0 {
 		c.Anchor("calls of addCategories")
+	}
+}
+
+// R-LCTABLE: the hand-written lowercase table agrees with the Unicode case data.
+func RLcTable(c *core.Ctx) {
+	c.Rule("R-LCTABLE", "every row of lcTable (evaluated from the source: bounds, operation, operand) maps each rune of its range to a case variant of that rune — a member of its unicode.SimpleFold orbit, its unicode.ToLower, or the rune itself; a row that spans characters without case (× U+00D7 inside À..Þ) adds unrelated characters to every IgnoreCase class that contains them", 90)
+	p := c.P
+	syn := p.Pkg("syntax")
+	if syn == nil {
+		c.Anchor("package syntax")
+		return
+	}
+	info := syn.TypesInfo
+	var lit *ast.CompositeLit
+	for _, f := range syn.Syntax {
+		ast.Inspect(f, func(x ast.Node) bool {
+			vs, ok := x.(*ast.ValueSpec)
+			if !ok || len(vs.Names) != 1 || vs.Names[0].Name != "lcTable" || len(vs.Values) != 1 {
+				return true
+			}
+			lit, _ = vs.Values[0].(*ast.CompositeLit)
+			return false
+		})
+	}
+	if lit == nil {
+		c.Anchor("syntax.lcTable")
+		return
+	}
+	ops := map[string]int64{}
+	for _, nm := range []string{"LowercaseSet", "LowercaseAdd", "LowercaseBor", "LowercaseBad"} {
+		if v, ok := constInScope(syn.Types, nm); ok {
+			ops[nm] = v
+		} else {
+			c.Anchor("syntax." + nm)
+			return
+		}
+	}
+	inOrbit := func(r, m rune) bool {
+		if r == m || unicode.ToLower(r) == m || unicode.ToUpper(r) == m {
+			return true
+		}
+		for x := unicode.SimpleFold(r); x != r; x = unicode.SimpleFold(x) {
+			if x == m {
+				return true
+			}
+		}
+		return false
+	}
+	for i, el := range lit.Elts {
+		row, ok := el.(*ast.CompositeLit)
+		if !ok || len(row.Elts) != 4 {
+			c.Unknown(fmt.Sprintf("lcTable / row #%d", i+1), el.Pos(), "row is not a four-element literal")
+			continue
+		}
+		var v [4]int64
+		okRow := true
+		for j, e := range row.Elts {
+			k, ok := core.ConstInt(info, e)
+			if !ok {
+				okRow = false
+			}
+			v[j] = k
+		}
+		if !okRow || v[1] < v[0] || v[1]-v[0] > 0x2000 {
+			c.Unknown(fmt.Sprintf("lcTable / row #%d", i+1), row.Pos(), "row cannot be evaluated")
+			continue
+		}
+		var bad []string
+		for r := rune(v[0]); r <= rune(v[1]); r++ {
+			var m rune
+			switch v[2] {
+			case ops["LowercaseSet"]:
+				m = rune(v[3])
+			case ops["LowercaseAdd"]:
+				m = r + rune(v[3])
+			case ops["LowercaseBor"]:
+				m = r | 1
+			case ops["LowercaseBad"]:
+				m = r + (r & 1)
+			default:
+				m = -1
+			}
+			if !inOrbit(r, m) {
+				bad = append(bad, fmt.Sprintf("U+%04X->U+%04X", r, m))
+			}
+		}
+		key := fmt.Sprintf("lcTable / row U+%04X..U+%04X maps every rune to a case variant", v[0], v[1])
+		if len(bad) > 6 {
+			bad = append(bad[:6], fmt.Sprintf("... %d in all", len(bad)))
+		}
+		c.Check(len(bad) == 0, key, row.Pos(), "not case variants: %s", strings.Join(bad, " "))
 	}
 }
